@@ -1600,6 +1600,35 @@ fn restore_stack_frame(
     env.push_expr_to_eval(state, expr);
 }
 
+/// Restore the value stack and the pending expressions of the
+/// current stack frame to how they were before a failed evaluation
+/// step: drop everything the step pushed, and push back the values
+/// that it popped.
+fn rollback_stack_frame(env: &mut Env, values_len_before: usize, exprs_len_before: usize) {
+    let popped = std::mem::take(&mut env.popped_this_step);
+    let frame = env.current_frame_mut();
+
+    frame.exprs_to_eval.truncate(exprs_len_before);
+
+    // The lowest stack index this step popped. Everything below it
+    // is untouched.
+    let lowest_idx = popped
+        .iter()
+        .map(|(idx, _)| *idx)
+        .filter(|idx| *idx < values_len_before)
+        .min()
+        .unwrap_or(values_len_before);
+    frame.evalled_values.truncate(lowest_idx);
+
+    // The first value popped from each index is the value that was
+    // there before this step.
+    for idx in lowest_idx..values_len_before {
+        if let Some((_, value)) = popped.iter().find(|(i, _)| *i == idx) {
+            frame.evalled_values.push(value.clone());
+        }
+    }
+}
+
 /// Values to push back to the evalled_values stack if we encounter an
 /// error, so we can resume.
 #[derive(Debug, Clone)]
@@ -7157,9 +7186,17 @@ pub(crate) fn eval(env: &mut Env, session: &Session) -> Result<Value, EvalError>
                 println!();
             }
 
+            env.popped_this_step.clear();
+            let values_len_before = env.current_frame().evalled_values.len();
+            let exprs_len_before = env.current_frame().exprs_to_eval.len();
+
             match eval_expr(env, session, Rc::clone(&outer_expr), &mut expr_state) {
-                Err((RestoreValues(restore_values), eval_err)) => {
-                    restore_stack_frame(env, (expr_state, Rc::clone(&outer_expr)), &restore_values);
+                Err((RestoreValues(_), eval_err)) => {
+                    // Undo whatever this step did to the value and
+                    // expression stacks, so resuming retries the same
+                    // step on the same values.
+                    rollback_stack_frame(env, values_len_before, exprs_len_before);
+                    restore_stack_frame(env, (expr_state, Rc::clone(&outer_expr)), &[]);
                     return Err(eval_err);
                 }
                 Ok(Some(new_stack_frame)) => {
